@@ -10,8 +10,26 @@ from harness import core, crnlib
 def st_case(net):
     from synkit.CRN.Petri.structure import find_siphons, find_traps
     H = crnlib.build(net)
-    return {"kind": "st", "net": net, "siphons": [sorted(x) for x in find_siphons(H)],
+    return {"kind": "st", "net": net, "maxsize": 0, "siphons": [sorted(x) for x in find_siphons(H)],
             "traps": [sorted(x) for x in find_traps(H)]}
+
+
+def st_variant_case(inp):
+    """the same answers through PetriAnalyzer, from the bipartite graph, and with a size limit"""
+    from synkit.CRN.Petri.structure import find_siphons, find_traps
+    from synkit.CRN.Petri.analyzer import PetriAnalyzer
+    from synkit.CRN.Hypergraph.conversion import hypergraph_to_bipartite
+    net, how = inp["net"], inp["how"]
+    H = crnlib.build(net)
+    if how == "analyzer":
+        a = PetriAnalyzer(H).compute_siphons_traps()
+        return {"kind": "st", "net": net, "maxsize": 0, "siphons": [sorted(x) for x in a.siphons], "traps": [sorted(x) for x in a.traps]}
+    if how == "bipartite":
+        G = hypergraph_to_bipartite(H)
+        return {"kind": "st", "net": net, "maxsize": 0, "siphons": [sorted(x) for x in find_siphons(G)], "traps": [sorted(x) for x in find_traps(G)]}
+    k = inp["k"]
+    return {"kind": "st", "net": net, "maxsize": k, "siphons": [sorted(x) for x in find_siphons(H, max_size=k)],
+            "traps": [sorted(x) for x in find_traps(H, max_size=k)]}
 
 
 def fire_case(inp):
@@ -151,6 +169,12 @@ def run(ctx: core.Ctx) -> None:
     core.run_stage(ctx, S("siphons-traps-textbook", st_case, [crnlib.parse(v) for v in crnlib.TEXTBOOK.values()], ""))
     core.run_stage(ctx, S("siphons-traps-random", st_case,
                           [crnlib.random_net(ctx.rng, 6, 6, 2) for _ in range(800 if q else 20000)], ""))
+    var = []
+    for _ in range(600 if q else 12000):
+        n = crnlib.random_net(ctx.rng, 6, 6, 2)
+        how = ctx.rng.choice(["analyzer", "bipartite", "limited"])
+        var.append({"net": n, "how": how, "k": ctx.rng.randint(1, 3)})
+    core.run_stage(ctx, S("siphons-traps-other-entry-points", st_variant_case, var, ""))
     core.run_stage(ctx, S("fire-enabled", fire_case, fire_inputs(ctx.rng, 3000 if q else 60000), "every case"))
     # realizability: all flows in 0..2 on the exhaustive unit networks with <= 2 reactions (quick: sample), random beyond
     small = [n for n in nets if len(n["rx"]) <= 2]
@@ -181,5 +205,5 @@ def run(ctx: core.Ctx) -> None:
 
 def replay(ctx, data):
     st = data["stage"]
-    fn = st_case if st.startswith("siphons") else fire_case if st.startswith("fire") else real_case
+    fn = st_variant_case if st.startswith("siphons-traps-other") else st_case if st.startswith("siphons") else fire_case if st.startswith("fire") else real_case
     core.run_stage(ctx, S(st, fn, [data["input"]], ""))
